@@ -74,13 +74,68 @@ func macOf(ip []byte) []byte {
 	return m
 }
 
+// Frames are the capture records of the packet: one, or one per IPv4 fragment.
+func (s *Scenario) Frames(p *Packet, lt layers.LinkType, padding bool) ([][]byte, error) {
+	nb, err := s.NetworkBytes(p)
+	if err != nil {
+		return nil, err
+	}
+	if len(p.FragCuts) == 0 || s.Conversations[p.Conv].IPv6 {
+		fr, err := s.frame(p, nb, lt, padding)
+		return [][]byte{fr}, err
+	}
+	// IPv4 header without options: 20 bytes
+	hdr, body := nb[:20], nb[20:]
+	cuts := append(append([]int{0}, p.FragCuts...), len(body))
+	var out [][]byte
+	for i := 0; i+1 < len(cuts); i++ {
+		from, to := cuts[i], cuts[i+1]
+		if from%8 != 0 || from >= to || to > len(body) {
+			return nil, fmt.Errorf("bad fragment cut %v of a %d byte IP payload", p.FragCuts, len(body))
+		}
+		fb := append(append([]byte{}, hdr...), body[from:to]...)
+		total := len(fb)
+		fb[2], fb[3] = byte(total>>8), byte(total)
+		fo := uint16(from / 8)
+		if to != len(body) {
+			fo |= 0x2000 // more fragments
+		}
+		fb[6], fb[7] = byte(fo>>8), byte(fo)
+		fb[10], fb[11] = 0, 0
+		sum := uint32(0)
+		for j := 0; j < 20; j += 2 {
+			sum += uint32(fb[j])<<8 | uint32(fb[j+1])
+		}
+		for sum>>16 != 0 {
+			sum = sum&0xffff + sum>>16
+		}
+		cs := ^uint16(sum)
+		fb[10], fb[11] = byte(cs>>8), byte(cs)
+		fr, err := s.frame(p, fb, lt, padding)
+		if err != nil {
+			return nil, err
+		}
+		out = append(out, fr)
+	}
+	if p.FragReverse {
+		for i, j := 0, len(out)-1; i < j; i, j = i+1, j-1 {
+			out[i], out[j] = out[j], out[i]
+		}
+	}
+	return out, nil
+}
+
 // FrameBytes serialises the packet as it appears in a capture of the given
-// link type.
+// link type (unfragmented).
 func (s *Scenario) FrameBytes(p *Packet, lt layers.LinkType, padding bool) ([]byte, error) {
 	nb, err := s.NetworkBytes(p)
 	if err != nil {
 		return nil, err
 	}
+	return s.frame(p, nb, lt, padding)
+}
+
+func (s *Scenario) frame(p *Packet, nb []byte, lt layers.LinkType, padding bool) ([]byte, error) {
 	c := s.Conversations[p.Conv]
 	switch lt {
 	case layers.LinkTypeEthernet:
@@ -153,13 +208,15 @@ func (s *Scenario) WriteCaptureAs(path string, i int) (err error) {
 		write, flush = w.WritePacket, func() error { return nil }
 	}
 	for _, p := range cp.Packets {
-		fr, err := s.FrameBytes(p, cp.LinkType, cp.Padding)
+		frames, err := s.Frames(p, cp.LinkType, cp.Padding)
 		if err != nil {
 			return fmt.Errorf("%s: %v: %w", cp.Name, p, err)
 		}
-		ci := gopacket.CaptureInfo{Timestamp: time.UnixMicro(p.TimeUS), CaptureLength: len(fr), Length: len(fr)}
-		if err := write(ci, fr); err != nil {
-			return err
+		for _, fr := range frames {
+			ci := gopacket.CaptureInfo{Timestamp: time.UnixMicro(p.TimeUS), CaptureLength: len(fr), Length: len(fr)}
+			if err := write(ci, fr); err != nil {
+				return err
+			}
 		}
 	}
 	if err := flush(); err != nil {
